@@ -46,7 +46,27 @@ def showTable (t : List (List Bool)) : String := String.intercalate "/" (t.map s
 def Entry.show (e : Entry) : String :=
   s!"{e.idx} {e.switch} {match e.param with | some p => toString p | none => "-"} {showTable e.table}"
 
+/-- run-length encoding of a list of answers (consecutive equal ones are merged) -/
+def rleRuns {α : Type} [DecidableEq α] (xs : List α) : List (Nat × α) :=
+  xs.foldr (fun x acc => match acc with
+    | (n, y) :: rest => if x = y then (n + 1, y) :: rest else (1, x) :: acc
+    | [] => [(1, x)]) []
+
+/-- minutes after midnight (< 1440) as the parsed time `strptime` returns -/
+def minuteArg (m : Nat) : TimeArg := .hm (m / 60) (m % 60)
+
+/-- `s.setsweep <day> <state> <start minute> all|<e1,e2,...>`: `set_state(state, start, end)` on a fresh copy
+of the day for every end minute of the list (all 1440 for `all`), in order; the answers `<day> <outcome>`
+run-length encoded as `<count>*<day>:<outcome>` -/
+def setSweep (day : List Bool) (st : String) (s : Nat) (ends : List Nat) : String :=
+  let rs := ends.map fun e => setState day st (minuteArg s) (minuteArg e)
+  String.intercalate " " ((rleRuns rs).map fun (n, r) => s!"{n}*{showBits r.1}:{r.2.tag}")
+
 def scheduleOps : List String → Option String
+  | ["s.setsweep", day, st, s, ends] => do
+    let day ← parseBits day; let st ← parseState st; let s ← s.toNat?
+    let ends ← if ends = "all" then some (List.range 1440) else (ends.splitOn ",").mapM String.toNat?
+    if s < 1440 ∧ ends.all (· < 1440) then pure (setSweep day st s ends) else none
   | ["s.set", day, st, a, b] => do
     let day ← parseBits day; let st ← parseState st; let a ← parseTimeArg a; let b ← parseTimeArg b
     let r := setState day st a b
